@@ -55,7 +55,7 @@ def string_cases(rng):
     s = gen_str(rng)
     sub = gen_str(rng, 2, 0)
     n = len(s)
-    start = rng.randrange(-n, n + 3)
+    start = rng.randrange(-2 * n - 3, n + 3) if rng.random() < 0.5 else rng.randrange(-n, n + 3)     # also below -len
     length = rng.randrange(-2, n + 3)
     cnt = rng.randrange(-1, 4)
     chars = rng.choice([None, 'a', 'ab', ' ', ', ', 'b,'])
